@@ -104,6 +104,21 @@ Proof.
   - exact (export_nets_sorted_NoDup src_valid_verilog src_prefix_verilog ws ns ND NP Hn NDn).
 Qed.
 
+(* memories / ROMs are emitted `sorted(..., key=lambda m: m.id)` (the generator checks every
+   such loop in the Verilog emitters); ids are unique, so the order is schedule-independent
+   even when several memories carry the same name *)
+Lemma N_ltb_strict_total : strict_total N.ltb.
+Proof. exact (ltb_of_strict_total _ _ N_compare_ok). Qed.
+
+Theorem src_memories_by_id_perm_invariant : forall (A : Type) (mid : A -> N) (l l' : list A),
+  src_memories_sorted_by_id = true ->
+  NoDup (map mid l) -> Permutation l l' ->
+  sort_by mid N.ltb l = sort_by mid N.ltb l'.
+Proof.
+  intros A mid l l' _ ND P. apply sort_by_key_perm_invariant; auto. exact N_ltb_strict_total.
+  intros x y Hx Hy E. eapply NoDup_map_inj_in; eauto.
+Qed.
+
 (* print_trace: the trace dict has one entry per name *)
 Theorem src_trace_text_perm_invariant : forall render_line fmt (items items' : list titem),
   Permutation items items' -> NoDup (map fst items) ->
